@@ -105,12 +105,13 @@ def run(chk):
     chk.rule("R6", "no element access (operator[], front, back) on a std::vector of unknown size; every std::array index is a constant inside the array")
     chk.rule("R8", "no library function writes a variable with static storage duration and no function-local static is non-const (no hidden mutable state)")
     chk.rule("R7", "no reference variable or returned reference is bound to the result of a call that returns a reference when an argument of that call is a temporary (std::clamp/min/max idiom)")
+    chk.rule("R9", "no operator* / operator-> on a std::optional in a function that never tests it (has_value / bool); no integer division or remainder by a non-constant divisor")
     chk.rule("R0", "positive controls: the scanners fire on a control TU fragment containing each forbidden construct")
     chk.assumptions += ["static analysis decides the clauses the statement names (lookups hit, exception escape, parser totality, definite initialisation inside "
                         "the library, integer/enum discipline); general memory safety beyond these clauses is NOT decided",
                         "std::tolower/toupper on negative char values (non-ASCII input to Lowercase/Uppercase/SnakeCase) is formally UB and is recorded as an observation, not armed; these helpers are not on the parsing paths",
                         "default constructors leave values uninitialised by documented design"]
-    controls = {"cast": 0, "signed": 0, "unchecked": 0, "uninit": 0, "throw": 0, "vector_element": 0, "array_element": 0, "dangling": 0, "state": 0}
+    controls = {"cast": 0, "signed": 0, "unchecked": 0, "uninit": 0, "throw": 0, "vector_element": 0, "array_element": 0, "dangling": 0, "state": 0, "optional_deref": 0, "int_div": 0}
     n_calls = 0
     n_array_idx = [0]
     for T in NUMERIC:
@@ -157,6 +158,14 @@ def run(chk):
                     v = table_of_call(F, n)
                     if v is not None:
                         checked_tables.add(v["id"])
+            opt_tested = any(F.fns.get(n["f"], {}).get("sname") in ("has_value", "operator bool") and "std::optional<" in F.fns.get(n["f"], {}).get("qname", "") for n, _ in calls)
+            for n, _ in calls:
+                g = F.fns.get(n["f"])
+                if g is not None and g["sname"] in ("operator*", "operator->") and re.match(r"std::optional<", g.get("qname", "")) and not opt_tested:
+                    if is_control:
+                        controls["optional_deref"] += 1
+                    else:
+                        chk.violated("R9", "%s: optional dereference" % f["name"], "%s on a std::optional that this function never tests: undefined behaviour when it is empty" % g["sname"], loc)
             iter_derefs = any(F.fns.get(n["f"], {}).get("sname") in ("operator->", "operator*") and "iterator" in F.fns.get(n["f"], {}).get("qname", "") for n, _ in calls)
             for n, guarded in calls:
                 g = F.fns.get(n["f"])
@@ -242,6 +251,17 @@ def run(chk):
                         else:
                             chk.violated("R5", "%s: signed %s" % (f["name"], n.get("op")), "non-constant signed integer arithmetic of type %s can overflow" % t, loc)
             cg.walk(f.get("body"), visit)
+
+            def visit_div(n, f=f, is_control=is_control, loc=loc):
+                if n.get("k") in ("bin", "cassign") and n.get("op", "").rstrip("=") in ("/", "%") and "cv" not in n:
+                    t = strip_cvref(F.T(n.get("t", -1)) or "")
+                    r = n.get("r")
+                    if (t in SIGNED or t.startswith("unsigned") or t in ("size_t", "std::size_t")) and not (isinstance(r, dict) and ("cv" in r or r.get("k") == "ilit")):
+                        if is_control:
+                            controls["int_div"] += 1
+                        else:
+                            chk.violated("R9", "%s: integer %s" % (f["name"], n.get("op")), "integer division by a divisor that is not a constant: undefined behaviour when it is zero", loc)
+            cg.walk(f.get("body"), visit_div)
             # R8: no hidden mutable state (results must be functions of the inputs, for every history of calls)
             def visit_state(n, f=f, is_control=is_control, loc=loc):
                 k = n.get("k")
